@@ -269,9 +269,15 @@ class Interface(object):
 
         key = method.gen_interface_key(s)
         if key in self.method_id_map:
-            c = self.method_id_map[key].parent_class
+            other = self.method_id_map[key]
+            c = other.parent_class
             if c is None:
-                pass
+                # two different service methods must not share an interface
+                # key: the second one would silently never be routed to.
+                if other is not method and method.parent_class is None:
+                    raise ValueError("Method %r of %r conflicts with a method "
+                                "with the same interface key: %r" %
+                                                (method.name, s, key))
 
             elif c is s:
                 pass
